@@ -37,6 +37,25 @@ theorem memport_refines_array (ops : WordOps D) (cfg : Cfg) (hle : cfg.depth ≤
   unfold delayed ArrMem.observe
   rw [run_refines ops cfg hle cs m hlen hin]
 
+/-- **Power-on contents**: the simulated memory started from `Node_Memory::simulatePowerOn` behaves as the array that holds the
+declared initial contents iff the memory is a ROM or its write clock has `initializeMemory` — for every declared image, port list,
+access sequence and latency. -/
+theorem power_on_contents_refine_array (ops : WordOps D) (cfg : Cfg) (hle : cfg.depth ≤ 2 ^ cfg.aw) (declared : List D)
+    (hlen : declared.length = cfg.depth) (isRom initMem : Bool) (cs : List (List (Op D)))
+    (hin : ∀ c ∈ cs, ∀ o ∈ c, o.inRange cfg.depth) (L : Nat) :
+    delayed L (run ops cfg (powerOn ops declared isRom initMem) (cs.map (List.map (PortIn.ofOp cfg.aw))))
+      = ArrMem.observe ops.undef L (ArrMem.init ops.undef declared (isRom || initMem)) cs := by
+  have hp : powerOn ops declared isRom initMem = (ArrMem.init ops.undef declared (isRom || initMem)).cells := by
+    unfold powerOn ArrMem.init
+    cases h : (isRom || initMem)
+    · simp only [Bool.false_eq_true, if_false]
+      exact List.map_const'
+    · simp
+  rw [hp]
+  refine memport_refines_array ops cfg hle _ ?_ cs hin L
+  unfold ArrMem.init
+  cases (isRom || initMem) <;> simp [hlen]
+
 /-- **`convertToReadBeforeWrite`**: at every stage of the loop (read port still ordered after `ws1`, already moved past `ws2`)
 the mux chain behind the read port gives what the port gave while it was ordered after all of `ws1 ++ ws2`. -/
 theorem rbw_rewrite_sound (ops : WordOps D) (cfg : Cfg) (hle : cfg.depth ≤ 2 ^ cfg.aw) (mem : List D) (a : Nat) (ha : a < cfg.depth)
@@ -145,5 +164,8 @@ example : Collide (resolveWriteOrder 3 (fun _ => (⟨0, true, 1⟩ : WIn Nat)) 1
 
 /-- per-stage enables on a 2-stage pipeline with reset values 7, 8: stage 1 holds while its enable is low -/
 example : pipeTrace 99 [7, 8] [([true, false], 1), ([true, true], 2), ([false, true], 3), ([], 4), ([true, true], 5)] = [8, 8, 1, 2, 2] := by decide
+
+/-- a RAM whose write clock has `initializeMemory = false` starts undefined although contents were declared; a ROM does not care -/
+example : powerOn natOps [10, 11] false false = [99, 99] ∧ powerOn natOps [10, 11] false true = [10, 11] ∧ powerOn natOps [10, 11] true false = [10, 11] := by decide
 
 end Gatery.C07.Props
